@@ -11,9 +11,10 @@ Oracle (exact integer ticks of 1/16 s; intervals are k/8 s <= 64 s):
     with now=True the first call happens synchronously inside start();
   * withCount (histories without reset()): every count >= 1 and the running sum of counts equals
     floor((t_call - start)/interval) (+1 if now=True) = number of boundaries elapsed;
-  * stop() or a failure (raise / failed Deferred) fires start()'s Deferred exactly once -- with the
-    LoopingCall, or with a Failure wrapping the very exception instance -- by the end of the harness
-    operation that completes it, never before; no call happens afterwards.
+  * stop() or a failure (raise / failed Deferred / a twisted.python.failure.Failure object *returned* by the
+    function, which is how a function reports an error without raising: maybeDeferred semantics) fires
+    start()'s Deferred exactly once -- with the LoopingCall, or with a Failure wrapping the very exception
+    instance -- by the end of the harness operation that completes it, never before; no call happens afterwards.
 Blocking: some calls take time themselves (the clock advances while the function runs, possibly across
 boundaries): completion is the time after blocking, and the boundaries that passed meanwhile are counted
 at the next call (count sums are judged at call *start* times).
@@ -35,7 +36,7 @@ LEVEL = "exploration"
 ENGINE = "core"
 TECHNIQUE = "runtime monitoring: exact-rational boundary-grid oracle for call times, count sums and start() Deferred firing"
 RULE = ("random cases: interval k/8 s, random start offset, now flag, plain/withCount, a per-call behaviour schedule "
-        "(return / raise / Deferred fired by the harness or by a clock timer after a latency, ok or failed / already-fired "
+        "(return / raise / return a Failure object (built from the exception, or captured in an except block) / Deferred fired by the harness or by a clock timer after a latency, ok or failed / already-fired "
         "Deferred / stop() from inside), and 5-60 steps mixing sub-interval advances, exact-boundary advances, jumps of many "
         "intervals, advance(0), stop, reset, Deferred firings, calls that block (clock moves inside the call), and start() "
         "again after the loop ended: at top level, from a callback of start()'s Deferred, and (with stop()) from inside the function.  Distinct = the whole case; non-trivial = at least 2 calls "
@@ -47,7 +48,7 @@ FLOORS = {"calls": 5000, "cadence_checks": 3000, "count_sum_checks": 1000, "coun
           "final_by_stop": 300, "final_by_failure": 300, "stop_inside_call": 50, "stop_while_outstanding": 50,
           "resets": 100, "post_final_advances": 500, "exact_boundary_advances": 200,
           "restarts_at_top_level": 200, "restarts_from_deferred_callback": 200, "restarts_inside_call": 10, "blocking_calls": 500, "resets_while_call_in_flight": 300,
-          "resets_inside_call": 300}
+          "resets_inside_call": 300, "failures_returned_as_failure_object": 200}
 READY = True
 U = 16
 MAX_CALLS = 300  # per case; legitimate cases make at most one call per advance (< 80)
@@ -77,6 +78,8 @@ def gen_case(rng):
             b = ["dclk", ok, max(0, lat)]
         elif r < 0.93:
             b = ["dnow", ok]
+        elif r < 0.93 + fail_p / 2:
+            b = ["retfail"]  # the function reports its error by returning a Failure object instead of raising
         else:
             b = ["ret"]
         if b[0] in ("ret", "raise") and rng.random() < 0.08:
@@ -153,6 +156,7 @@ class Monitor:
         self.old_runs = []  # [(fired list, final)] of earlier start()s: each must have fired exactly once, for good
         self.cb_restarts = list(case.get("restart_in_callback", ()))
         self.restarted_inside = False
+        self.returned_failure = False
         self.lc = task.LoopingCall.withCount(self.f) if case["withCount"] else task.LoopingCall(self.f)
         self.lc.clock = self.clock
         self.n_timers = 0
@@ -177,6 +181,9 @@ class Monitor:
         if self.restarted_inside:
             # causal signature: stop()+start() were called from inside the running function
             what, key = "after stop()+start() from inside the looped function: [%s] %s" % (key, what), "restart-inside-call-breaks-loop"
+        elif self.returned_failure and key in ("start-deferred-not-fired-once", "start-deferred-wrong-result", "call-after-stop"):
+            # causal signature: the run in question ended by the function returning a Failure object
+            what, key = "the looped function returned a Failure object: [%s] %s" % (key, what), "returned-failure-object-not-a-failure"
         elif self.run_index > 0 and self.case["withCount"] and key in ("first-call-time", "count-sum-mismatch", "count-not-positive"):
             # causal signature: a withCount loop was started again and the count of the new run is off
             what, key = "withCount loop started again: [%s] %s" % (key, what), "withcount-restart-stale-last-time"
@@ -235,13 +242,24 @@ class Monitor:
                 except BaseException as e:  # noqa: BLE001
                     self.fail("unexpected-exception", "start() inside the function raised %s: %s" % (type(e).__name__, e))
         kind = beh[0]
-        if kind == "raise" or (kind == "dnow" and not beh[1]):
+        if kind in ("raise", "retfail") or (kind == "dnow" and not beh[1]):
             exc = Boom(idx)
             self.running = False
             self.final = ("fail", exc)
             self.events.append(("fails", idx, kind))
             if kind == "raise":
                 raise exc
+            if kind == "retfail":
+                from twisted.python.failure import Failure
+
+                self.stat("failures_returned_as_failure_object")
+                self.returned_failure = True
+                if idx % 2:
+                    return Failure(exc)
+                try:
+                    raise exc
+                except Boom:
+                    return Failure()  # the usual idiom: "except: return Failure()"
             return defer.fail(exc)
         if kind in ("dman", "dclk"):
             d = defer.Deferred()
@@ -405,6 +423,7 @@ class Monitor:
         self.final = None
         self.run_index += 1
         self.reset_used = False
+        self.returned_failure = False
         self.sumcount = 0
         self.stat("restarts")
         self.begin_run(iv8 * 2, now)
